@@ -179,14 +179,23 @@ fn first_frame_config_verdict(codec: VCodec, data: &[u8]) -> (Tri, EV) {
     match codec {
         VCodec::H264 => {
             let units = frames::annexb_units(data);
-            let sps = units.iter().any(|u| u[0] & 0x1f == 7);
-            let pps = units.iter().any(|u| u[0] & 0x1f == 8);
-            (if sps && pps { Tri::Yes } else { Tri::No }, EV::FirstVideoFrameMissingSpsPps)
+            let sps = units.iter().find(|u| u[0] & 0x1f == 7);
+            let pps = units.iter().find(|u| u[0] & 0x1f == 8);
+            match (sps, pps) {
+                // a set that does not fit the 16-bit length of avcC: C16 demands an error, the contract is silent
+                (Some(a), Some(b)) if a.len() > 65535 || b.len() > 65535 => (Tri::Unknown, EV::Io),
+                (Some(_), Some(_)) => (Tri::Yes, EV::FirstVideoFrameMissingSpsPps),
+                _ => (Tri::No, EV::FirstVideoFrameMissingSpsPps),
+            }
         }
         VCodec::H265 => {
             let units = frames::annexb_units(data);
-            let has = |t: u8| units.iter().any(|u| (u[0] >> 1) & 0x3f == t);
-            (if has(32) && has(33) && has(34) { Tri::Yes } else { Tri::No }, EV::FirstVideoFrameMissingSpsPps)
+            let first = |t: u8| units.iter().find(|u| (u[0] >> 1) & 0x3f == t);
+            match (first(32), first(33), first(34)) {
+                (Some(a), Some(b), Some(c)) if a.len() > 65535 || b.len() > 65535 || c.len() > 65535 => (Tri::Unknown, EV::Io),
+                (Some(_), Some(_), Some(_)) => (Tri::Yes, EV::FirstVideoFrameMissingSpsPps),
+                _ => (Tri::No, EV::FirstVideoFrameMissingSpsPps),
+            }
         }
         VCodec::Av1 => {
             // walk OBUs by the spec's framing; any byte that could be an OBU type-1 header => Unknown
@@ -369,7 +378,10 @@ fn video_verdict(st: &ContractState, pts: f64, dts: Option<f64>, data: &[u8], ke
                     Tri::No => rej.push(ev),
                     Tri::Yes => {}
                     Tri::Unknown => {
-                        if !hint.constructive_config {
+                        if ev == EV::Io {
+                            either = Some("parameter set beyond the 16-bit length field");
+                            maybe.push(ev);
+                        } else if !hint.constructive_config {
                             either = Some("first frame configuration may be malformed");
                             maybe.push(ev);
                         }
